@@ -341,13 +341,35 @@ def h5_history(S, d, k, n):
     S.observe('final', sorted(map(list, _offsets(lmin, cs.get_index_set()))))
 
 
+def h6_reuse(S, d, k, n):
+    """Two refinement histories on ONE CombiScheme object (re-initialised in between, as a second adaptive run on the same instance does), the
+    scheme queried after solver-chosen steps only: whatever the object remembers from earlier queries or from the first run must not show."""
+    lmin, cs = _real_scheme(S, d, k)
+    for phase in (0, 1):
+        if phase == 1:
+            cs.init_adaptive_combi_scheme(lmin + k, lmin)
+            _check_inv_concrete(S, d, _offsets(lmin, cs.old_index_set), _offsets(lmin, cs.active_index_set), 'reuse-init')
+        for step in range(n):
+            act = sorted(_offsets(lmin, cs.active_index_set))
+            t = act[S.choice('pick%d_%d' % (phase, step), len(act))]
+            cs.update_adaptive_combi([lmin + x for x in t])
+            if S.flag('query%d_%d' % (phase, step)):
+                _check_coeffs_concrete(S, d, lmin, cs, _offsets(lmin, cs.get_index_set()), 'reuse')
+        old = _offsets(lmin, cs.old_index_set)
+        act2 = _offsets(lmin, cs.active_index_set)
+        _check_inv_concrete(S, d, old, act2, 'reuse')
+        _check_coeffs_concrete(S, d, lmin, cs, old | act2, 'reuse')
+
+
 # ---------------------------------------------------------------------------------------------------
 BOUNDS = {
     'quick': {'H2 step box K per d': {1: 5, 2: 4, 3: 2}, 'H3 coeff box K per d': {1: 5, 2: 3, 3: 1, 4: 1},
               'H1/H4 k per d': {1: 6, 2: 5, 3: 4, 4: 3, 5: 2}, 'H5 history (d,k,n)': [(2, 1, 3), (2, 2, 2), (3, 1, 2)],
+              'H6 two histories on one object (d,k,n)': [(2, 1, 2), (2, 2, 2)],
               'lmin': 'symbolic, any integer >= 0'},
     'thorough': {'H2 step box K per d': {1: 7, 2: 5, 3: 3, 4: 2}, 'H3 coeff box K per d': {1: 7, 2: 4, 3: 2, 4: 1},
                  'H1/H4 k per d': {1: 8, 2: 7, 3: 6, 4: 4, 5: 3}, 'H5 history (d,k,n)': [(2, 1, 5), (2, 2, 4), (3, 1, 3), (3, 2, 3), (4, 1, 2)],
+                 'H6 two histories on one object (d,k,n)': [(2, 1, 3), (2, 2, 2), (2, 2, 3), (3, 1, 2)],
                  'lmin': 'symbolic, any integer >= 0'},
 }
 
@@ -384,6 +406,8 @@ def jobs(tier):
     for (d, k, n) in b['H5 history (d,k,n)']:
         js.append(Job('H5-history[d=%d,k=%d,n=%d]' % (d, k, n), h5_history, {'d': d, 'k': k, 'n': n},
                       validate=(13 if tier == 'quick' else 1)))
+    for (d, k, n) in b['H6 two histories on one object (d,k,n)']:
+        js.append(Job('H6-reuse[d=%d,k=%d,n=%d]' % (d, k, n), h6_reuse, {'d': d, 'k': k, 'n': n}, validate=(13 if tier == 'quick' else 3)))
     return js
 
 MANIFEST_ENTRY = {
